@@ -467,7 +467,10 @@ def _split_tuple_assignments(tree):
                         if any(tk in reads for tk in tkeys[:j]):
                             safe = False
                     pure_rhs = safe
-                    if pure_rhs and (len(set(tkeys)) == len(tkeys)):
+                    ttexts = [ast.unparse(t) for t in st.targets[0].elts]
+                    all_reads = {ast.unparse(x) for v in st.value.elts for x in ast.walk(v) if isinstance(x, (ast.Attribute, ast.Name))}
+                    distinct_cells = len(set(ttexts)) == len(ttexts) and not any(tk in all_reads for tk in tkeys)
+                    if pure_rhs and (len(set(tkeys)) == len(tkeys) or distinct_cells):
                         for t, v in zip(st.targets[0].elts, st.value.elts):
                             out.append(ast.copy_location(ast.Assign(targets=[t], value=v, lineno=st.lineno), st))
                         k += 1
@@ -1093,6 +1096,28 @@ def _more_statement_spellings(tree):
     return k
 
 
+def _transparent_with(tree):
+    """`with errstate(..):` / `with catch_warnings():` / `with nullcontext():` change no value and no control flow: the body stands
+    in place of the statement.  (`suppress(..)` is NOT transparent: it swallows exceptions.)"""
+    k = 0
+    for node in ast.walk(tree):
+        for fld in ("body", "orelse", "finalbody"):
+            blk = getattr(node, fld, None)
+            if not (isinstance(blk, list) and blk and isinstance(blk[0], ast.stmt)):
+                continue
+            i = 0
+            while i < len(blk):
+                st = blk[i]
+                if isinstance(st, ast.With) and all(
+                        isinstance(it.context_expr, ast.Call) and ast.unparse(it.context_expr.func).split(".")[-1] in ("errstate", "catch_warnings", "nullcontext")
+                        and it.optional_vars is None for it in st.items):
+                    blk[i:i + 1] = st.body
+                    k += 1
+                    continue
+                i += 1
+    return k
+
+
 def respell(tree):
     np_names = {}
     for st in tree.body:
@@ -1117,6 +1142,7 @@ def respell(tree):
     n += _merge_store_aug(tree)
     n += _unroll_literal_comprehensions(tree)
     n += _more_statement_spellings(tree)
+    n += _transparent_with(tree)
     n += _inline_predicates(tree)
     n += _index_loops(tree)
     n += _fill_loops(tree)
